@@ -114,12 +114,12 @@ function* childSeqs(alphabet, maxLen) {
 export function* generate({ tier, seed }) {
   const rng = mulberry32(seed * 104729 + 7);
   // ---- G-TEXT exhaustive
-  const maxLen = tier === 'quick' ? 3 : 5;
+  const maxLen = tier === 'quick' ? 4 : 5;
   const items = [];
   for (const seq of strings(maxLen)) for (const pos of POSITIONS) items.push({ seq, pos });
   yield* textModules(items, 'C02-text', (it, k) => (tier === 'quick' ? (k % 7 === 0 ? HOSTS[(k / 7) % HOSTS.length | 0] : 'b') : HOSTS[k % HOSTS.length]));
   // ---- G-TEXT random longer
-  const nRand = tier === 'quick' ? 2000 : 20000;
+  const nRand = tier === 'quick' ? 10000 : 300000;
   const rnd = [];
   for (let i = 0; i < nRand; i++) {
     const len = 4 + rng.int(9);
@@ -149,12 +149,12 @@ export function* generate({ tier, seed }) {
       feature: 'child', variants: [{ vid: 'v0', options: OPTS }],
     };
   };
-  const exLen = tier === 'quick' ? 2 : 3;
+  const exLen = tier === 'quick' ? 3 : 4;
   for (const host of HOSTS) for (const seq of childSeqs(CHILD_KINDS, exLen)) {
-    if (tier === 'quick' && host !== 'b' && seq.length === 2 && rng.bool(0.6)) continue;
+    if (tier === 'quick' && host !== 'b' && seq.length === 3 && rng.bool(0.7)) continue;
     yield emitChildCase(host, seq);
   }
-  const nChildRand = tier === 'quick' ? 1500 : 20000;
+  const nChildRand = tier === 'quick' ? 8000 : 150000;
   for (let i = 0; i < nChildRand; i++) {
     const len = 3 + rng.int(6);
     const kinds = [];
@@ -233,9 +233,9 @@ export async function check(group, records) {
 }
 
 export function meta({ tier }) {
-  const L = tier === 'quick' ? 3 : 5;
+  const L = tier === 'quick' ? 4 : 5;
   return {
-    rule: `G-TEXT: every string of length 1..${L} over a 12-symbol whitespace alphabet {space, tab, LF, CR, CRLF, NBSP, &nbsp;, U+2003, U+3000, a, b, &amp;} as JSX text in 5 positions (only child, before/after/between expression containers, between elements), 100 per module, plus seeded random strings of length 4..12; G-CHILD: all child-kind sequences of length <= ${tier === 'quick' ? 2 : 3} over 12 child kinds on 5 hosts (element, <>, <Fragment>, KeepAlive, custom element) plus random longer ones. distinct_nontrivial = distinct (position, host, symbol-class string) resp. (host, child-kind sequence).`,
+    rule: `G-TEXT: every string of length 1..${L} over a 12-symbol whitespace alphabet {space, tab, LF, CR, CRLF, NBSP, &nbsp;, U+2003, U+3000, a, b, &amp;} as JSX text in 5 positions (only child, before/after/between expression containers, between elements), 100 per module, plus seeded random strings of length 4..12; G-CHILD: all child-kind sequences of length <= ${tier === 'quick' ? 3 : 4} over 12 child kinds on 5 hosts (element, <>, <Fragment>, KeepAlive, custom element) plus random longer ones. distinct_nontrivial = distinct (position, host, symbol-class string) resp. (host, child-kind sequence).`,
     exhaustive: [`all strings of length <= ${L} over the 12-symbol alphabet x 5 positions`],
     assumptions: ['reference = the standard JSX text rule quoted in the statement, applied to the decoded text', 'a text of only spaces/tabs without a line break may be kept or dropped (both accepted)', 'entities that decode to ASCII whitespace are not generated'],
   };
